@@ -356,10 +356,11 @@ fn indexgrid(rng: &mut Rng, n: usize, sink: &mut Sink) {
 
 // ------------------------------------------------------------------------------------------ C08
 fn clones(rng: &mut Rng, n: usize, sink: &mut Sink) {
-    let lens: Vec<usize> = if n >= 1000 { vec![0, 1, 15, 16, 17, 18, 100, 1000, 5000, 40000, 300000] } else { vec![0, 1, 15, 16, 17, 18, 100, 1000, 5000, 20000] };
+    let lens: Vec<usize> = vec![0, 1, 15, 16, 17, 18, 100, 1000, 5000];
     for it in 0..n {
         sink.line("reset");
-        let l = lens[it % lens.len()];
+        // a few very long texts (tens / hundreds of KiB): cloning must still not copy
+        let l = if it % 151 == 7 { if n >= 1000 { 300000 } else { 20000 } } else { lens[it % lens.len()] };
         sink.line("limit 8388608");
         match it % 5 {
             0 => sink.line(&format!("from_static 0 {}", rng.below(STATIC_TEXTS.len()))),
